@@ -52,6 +52,9 @@ def pipeD (op : String) (args : List Nat) : Option String :=
   | "pipestress" => some <| match args with
       | [_, n, _] => ok [n]
       | _ => reject
+  | "pipeslow" => some <| match args with
+      | [_, n, _, _] => ok [n]
+      | _ => reject
   | "bufdrop" => some <| match args with
       | [_, k, n] => ok [if n == 0 then k else min k n]
       | _ => reject
